@@ -921,7 +921,7 @@ def delete_keys_seq(d, keys):
     copy = dict(d)
     for t in keys:
         copy.pop(t, None)
-    return copy
+    return utils.FrozenDict(copy)
 
 
 @specs.method
